@@ -64,6 +64,11 @@ var recForms = []recForm{
 	{Name: "reduce-callback", Src: `function f(n){ return n > 0 ? [1, 1].reduce(function(a){ return a + f(n - 1) }) : 0 } function __go(d){ return f(d) }`},
 	{Name: "setter", Src: `var c = 0, o = {set s(v){ if (v > 0) { c++; this.s = v - 1 } }}; function __go(d){ c = 0; o.s = d; return c }`},
 	{Name: "instanceof-bound", Src: `function f(n){ return n > 0 ? 1 + f.bind(null).call(null, n - 1) : 0 } function __go(d){ return f(d) }`},
+	{Name: "sort-reentry", Src: `var a = [2, 1], n = 0; function c(){ if (n-- > 0) a.sort(c); return 0 } function __go(d){ n = d; a.sort(c); return d }`},
+	{Name: "getter-self", Src: `var n = 0, o = {get x(){ return n-- > 0 ? 1 + this.x : 0 }}; function __go(d){ n = d; return o.x }`},
+	{Name: "call-chain", Src: `function f(n){ return n > 0 ? 1 + Function.prototype.call.call(f, null, n - 1) : 0 } function __go(d){ return f(d) }`},
+	{Name: "apply-chain", Src: `function f(n){ return n > 0 ? 1 + Function.prototype.apply.apply(f, [null, [n - 1]]) : 0 } function __go(d){ return f(d) }`},
+	{Name: "concat-self", Src: `var n = 0, o = {toString: function(){ return n-- > 0 ? "x".concat(o) : "" }}; function __go(d){ n = d; return ("" + o).length }`},
 	{Name: "Function", Src: `function f(n){ return n > 0 ? 1 + Function("n", "return f(n-1)")(n) : 0 } function __go(d){ return f(d) }`},
 }
 
